@@ -155,11 +155,56 @@ func Implies(a, b Term) Term {
 	return mk(SBool, "=>", a, b)
 }
 
+func isNumeral(s string) bool {
+	if s == "" {
+		return false
+	}
+	for i := 0; i < len(s); i++ {
+		if s[i] < '0' || s[i] > '9' {
+			return false
+		}
+	}
+	return true
+}
+
 func Eq(a, b Term) Term {
 	if a.S == b.S {
 		return tTrue
 	}
+	if isNumeral(a.S) && isNumeral(b.S) {
+		return tFalse // distinct numerals
+	}
+	if (a.S == "true" && b.S == "false") || (a.S == "false" && b.S == "true") {
+		return tFalse
+	}
 	return mk(SBool, "=", a, b)
+}
+
+// ctorArgs splits "(ctor a1 a2 ...)" into its arguments if the term is an application of ctor.
+func ctorArgs(t Term, ctor string) []string {
+	s := t.S
+	if !strings.HasPrefix(s, "("+ctor+" ") {
+		return nil
+	}
+	inner := s[len(ctor)+2 : len(s)-1]
+	var out []string
+	depth := 0
+	start := 0
+	for i := 0; i < len(inner); i++ {
+		switch inner[i] {
+		case '(':
+			depth++
+		case ')':
+			depth--
+		case ' ':
+			if depth == 0 {
+				out = append(out, inner[start:i])
+				start = i + 1
+			}
+		}
+	}
+	out = append(out, inner[start:])
+	return out
 }
 
 func Ite(c, a, b Term) Term { return mk(a.Sort, "ite", c, a, b) }
@@ -183,10 +228,16 @@ func Ge(a, b Term) Term  { return mk(SBool, ">=", a, b) }
 func Gt(a, b Term) Term  { return mk(SBool, ">", a, b) }
 
 // Slice datatype accessors
-func SArr(s Term) Term { return mk(SRef, "s-arr", s) }
-func SOff(s Term) Term { return mk(SInt, "s-off", s) }
-func SLen(s Term) Term { return mk(SInt, "s-len", s) }
-func SCap(s Term) Term { return mk(SInt, "s-cap", s) }
+func sliceProj(s Term, i int, acc string, sort Sort) Term {
+	if a := ctorArgs(s, "mk-slice"); len(a) == 4 {
+		return Term{a[i], sort}
+	}
+	return mk(sort, acc, s)
+}
+func SArr(s Term) Term { return sliceProj(s, 0, "s-arr", SRef) }
+func SOff(s Term) Term { return sliceProj(s, 1, "s-off", SInt) }
+func SLen(s Term) Term { return sliceProj(s, 2, "s-len", SInt) }
+func SCap(s Term) Term { return sliceProj(s, 3, "s-cap", SInt) }
 func MkSlice(arr, off, ln, cp Term) Term {
 	return mk(SSlice, "mk-slice", arr, off, ln, cp)
 }
@@ -194,8 +245,18 @@ func MkSlice(arr, off, ln, cp Term) Term {
 var nilSlice = Term{"(mk-slice null 0 0 0)", SSlice}
 
 // Iface datatype accessors
-func ITag(i Term) Term { return mk(SInt, "i-tag", i) }
-func IRef(i Term) Term { return mk(SRef, "i-ref", i) }
+func ITag(i Term) Term {
+	if a := ctorArgs(i, "mk-iface"); len(a) == 2 {
+		return Term{a[0], SInt}
+	}
+	return mk(SInt, "i-tag", i)
+}
+func IRef(i Term) Term {
+	if a := ctorArgs(i, "mk-iface"); len(a) == 2 {
+		return Term{a[1], SRef}
+	}
+	return mk(SRef, "i-ref", i)
+}
 func MkIface(tag, ref Term) Term {
 	return mk(SIface, "mk-iface", tag, ref)
 }
